@@ -25,7 +25,7 @@ func TestMain(m *testing.M) {
 		"virtual clock injected by build overlay", "revocation is copy-on-write in the store (readers holding the old row object are unaffected, like a database)")
 }
 
-var weights = map[string]int{"encrypt": 10, "decrypt": 3, "open": 1, "close": 1, "restart": 1, "advance": 7, "revoke": 4, "rotate": 1, "pressure": 1}
+var weights = map[string]int{"encrypt": 10, "decrypt": 3, "open": 1, "close": 1, "restart": 1, "advance": 7, "revoke": 4, "rotate": 1, "pressure": 1, "revokeDecryptEncrypt": 2}
 
 func TestWorld(t *testing.T) {
 	kit.Steps(kit.Pick(40, 60))
@@ -44,7 +44,47 @@ func runHistory(t *rapid.T) {
 	shapes := map[string]bool{}
 	usedIK := map[string]*used{} // proc|ikid|created -> last use
 	w.OnOp = func(ev *world.Event) { monitor(t, w, ev, shapes, usedIK) }
-	t.Repeat(kit.Weighted(w.Actions(), weights, nil))
+	acts := w.Actions()
+	// a compound history that random interleaving reaches too rarely: a key cached by a live
+	// session is revoked, the interval passes, and the FIRST thing the session does is decrypt
+	// an old record under that key (the refresh path), then it encrypts
+	acts["revokeDecryptEncrypt"] = func(t *rapid.T) {
+		var cands []*world.Sess
+		for _, p := range w.Procs {
+			for _, s := range p.Sessions {
+				if s.Encrypts > 0 {
+					cands = append(cands, s)
+				}
+			}
+		}
+		if len(cands) == 0 {
+			t.Skip("no session that has encrypted yet")
+		}
+		s := cands[rapid.IntRange(0, len(cands)-1).Draw(t, "sess")]
+		var rec *world.Rec
+		for i := len(w.Recs) - 1; i >= 0; i-- {
+			if w.Recs[i].SessID == s.ID {
+				rec = w.Recs[i]
+				break
+			}
+		}
+		if rec == nil {
+			t.Skip("no record of that session")
+		}
+		pol := s.Proc.Policy
+		if rapid.Bool().Draw(t, "revokeSK") {
+			if ik := w.Store.Get(rec.IKID, rec.IKCreated); ik != nil && ik.Rec.ParentKeyMeta != nil {
+				w.RevokeRow(ik.Rec.ParentKeyMeta.ID, ik.Rec.ParentKeyMeta.Created, true)
+			}
+			w.Advance(2*pol.RevokeCheckInterval + pol.CreateDatePrecision + time.Second)
+		} else {
+			w.RevokeRow(rec.IKID, rec.IKCreated, false)
+			w.Advance(pol.RevokeCheckInterval + pol.CreateDatePrecision + time.Second)
+		}
+		w.Decrypt(s, rec, false, false)
+		w.Encrypt(s, []byte("after revocation"), false, false)
+	}
+	t.Repeat(kit.Weighted(acts, weights, nil))
 	var ss []string
 	for s := range shapes {
 		ss = append(ss, s)
